@@ -158,13 +158,18 @@ class World:
 
     def __init__(self, target, ctx=None, *, io_budget=20000, faults=None, chunk_choices=False,
                  send_choices=False, refuse_tcp=False, unresolvable=False, clock=1_600_000_000.25,
-                 local_ips=("10.0.0.2",)):
+                 local_ips=("10.0.0.2",), cutset=None, rx_end="timeout", send_cutset=None):
         self.target = target
         self.ctx = ctx if ctx is not None else Ctx()
         self.io_budget = io_budget
         self.faults = dict(faults or {})
         self.chunk_choices = chunk_choices
         self.send_choices = send_choices
+        self.cutset = cutset  # None: every stream offset may be a chunk boundary; else only these offsets
+        self.send_cutset = send_cutset
+        self.rx_end = rx_end  # what an empty receive buffer means: 'timeout' | 'close' | 'error'
+        self.rx_delivered = 0  # stream offset of the next byte the client will receive
+        self.tx_accepted = 0
         self.refuse_tcp = refuse_tcp
         self.unresolvable = unresolvable
         self.clock = clock
@@ -264,13 +269,16 @@ class World:
             n = 1
             self._pending_send_err = True
         elif self.send_choices and len(data) > 1:
-            # default: everything accepted; alternatives: 1 .. len-1 bytes accepted
-            c = self.ctx.choose("send%d" % len(data), len(data), 0)
-            if c:
-                n = c
+            # default: everything accepted; alternatives: fewer bytes accepted (a partial send)
+            cands = [k for k in range(1, len(data)) if self.send_cutset is None or (self.tx_accepted + k) in self.send_cutset]
+            if cands:
+                c = self.ctx.choose("send@%d" % self.tx_accepted, len(cands) + 1, 0)
+                if c:
+                    n = cands[c - 1]
         if self.peer_gone:
             raise BrokenPipeError(32, "Broken pipe")
         chunk = data[:n]
+        self.tx_accepted += n
         self.accepted += chunk
         reply = self.target.feed(chunk)
         if reply:
@@ -297,8 +305,10 @@ class World:
         if self.peer_gone and not self.rx:
             return b""
         if not self.rx:
-            if getattr(self.target, "tcp_closed_by_peer", False):
+            if getattr(self.target, "tcp_closed_by_peer", False) or self.rx_end == "close":
                 return b""
+            if self.rx_end == "error":
+                raise ConnectionResetError(104, "Connection reset by peer")
             raise _socket.timeout("timed out")
         avail = min(bufsize, len(self.rx))
         n = avail
@@ -309,11 +319,14 @@ class World:
             self.rx.clear()
             return out
         if self.chunk_choices and avail > 1:
-            c = self.ctx.choose("recv%d" % avail, avail, 0)
-            if c:
-                n = c
+            cands = [k for k in range(1, avail) if self.cutset is None or (self.rx_delivered + k) in self.cutset]
+            if cands:
+                c = self.ctx.choose("recv@%d" % self.rx_delivered, len(cands) + 1, 0)
+                if c:
+                    n = cands[c - 1]
         out = bytes(self.rx[:n])
         del self.rx[:n]
+        self.rx_delivered += n
         return out
 
     def _close(self, sock):
